@@ -168,6 +168,11 @@ class Proj:
             return self.ev(e["e"], env)
         if k == "field":
             base = self.ev(e["base"], env)
+            if e["name"] == "content" and isinstance(base, tuple) and base and base[0] == "path" and e["base"].get("ty") is not None:
+                bt = self.c.tys(e["base"]["ty"]).lstrip("&").replace("mut ", "")
+                if bt.startswith((PN + "Positive<", PN + "Push<")):
+                    # the `.content` hop of a look-ahead / PUSH node: the operand's node, a place like any other
+                    return ("path", base[1] + (("content",),))
             return self.step_field(base, e["name"])
         if k == "tuple":
             return ("tuple", tuple(self.ev(x, env) for x in e["es"]))
